@@ -12,10 +12,23 @@ pub fn enc_line(n: u64) -> String {
 }
 /// The two `ParseFailed` messages of the VarInt decoder as the library itself produces them on two reference inputs
 /// (`80 00`: zero rule; `ff^9 7f`: overflow). Other failures are classified by comparing with these, so a reworded message is
-/// not an alarm while a failure that reports the OTHER condition's message is.
+/// not an alarm while a failure that reports the OTHER condition's message is — as long as the two reference answers
+/// themselves are the right way round: comparing with the reference answers alone ties the kind to the library only up to a
+/// consistent relabelling (a library that swaps the two texts everywhere prints the same results, and with ONE text for both
+/// conditions the kind is recomputed from the position, i.e. by the oracle's own rule). `ref_msgs_check` therefore reads the
+/// two reference texts once per run: the first must name the zero rule ("zero"), the second the overflow ("overflow").
 fn ref_msgs() -> (Option<&'static str>, Option<&'static str>) {
     let m = |b: &[u8]| match deserialize_partial::<VarInt>(b) { Err(Error::ParseFailed(m)) => Some(m), _ => None };
     (m(&[0x80, 0x00]), m(&[0xff, 0xff, 0xff, 0xff, 0xff, 0xff, 0xff, 0xff, 0xff, 0x7f]))
+}
+/// the kinds are anchored in the library's own texts: on `80 00` the message speaks of a zero, on `ff^9 7f` of an overflow (a
+/// rewording that keeps these words is silent; swapped, merged or unrelated texts are reported)
+fn ref_msgs_check(o: &mut Out) {
+    let (z, ov) = ref_msgs();
+    let has = |m: Option<&'static str>, w: &str| m.map(|t| t.to_lowercase().contains(w)).unwrap_or(false);
+    o.direct(has(z, "zero") && !has(z, "overflow"), "varint: the failure on `80 00` is a ParseFailed whose text names the zero rule (and not the overflow)", "varint_decx 8000".into(), format!("{:?}", z), "ParseFailed(.. zero ..)".into());
+    o.direct(has(ov, "overflow") && !has(ov, "zero"), "varint: the failure on `ff^9 7f` is a ParseFailed whose text names the overflow (and not the zero rule)", "varint_decx ffffffffffffffffff7f".into(), format!("{:?}", ov), "ParseFailed(.. overflow ..)".into());
+    o.stat("decx.reference_messages");
 }
 /// decode with what is collapsed in `varint_dec` made visible: the kind of failure and the reader position at the failure
 pub fn decx_line(b: &[u8]) -> String {
@@ -256,5 +269,102 @@ pub fn run(o: &mut Out, tier: &str, seed: u64) {
             if i % 30 == 0 { enc_fail_case(o, n); }
         }
     }
-    o.notes.push("nontrivial rule: every encode case; decode cases that are accepted or have >= 2 bytes".into());
+    ref_msgs_check(o);
+    boundary_families(o, &mut rx);
+    o.notes.push("nontrivial rule: every encode case; decode cases that are accepted or have >= 2 bytes; embedded boundary strings: every case".into());
+}
+
+/// a boundary string as the FIRST field (`version`) of a `TransactionPrefix`: the prefix decoder must reject iff the string is not
+/// a VarInt, else return exactly that value as version and consume the string plus the (fixed, valid) tail
+const PREFIX_TAIL: [u8; 9] = [0x05, 0x01, 0xff, 0x0a, 0x00, 0x02, 0xde, 0xad, 0x77]; // unlock 5, one Gen input (height 10), no output, extra = de ad; 0x77 is not part of it
+const PREFIX_TAIL_USED: usize = 8;
+fn embed_prefix_case(o: &mut Out, s: &[u8], fam: &str) {
+    let mut b = s.to_vec(); b.extend_from_slice(&PREFIX_TAIL);
+    let line = format!("c01_dec prefix {}", hex(&b));
+    let r = o.op(line.clone(), true);
+    // (the reader sees one stream: an unterminated `s` continues into the tail; then only the model comparison applies)
+    let pos = positional(&b);
+    let f: Vec<&str> = pos.split(' ').collect();
+    if f[0] == "ok" && f[2].parse::<usize>().unwrap() != s.len() { o.stat("embed.version.merged_with_tail"); return; }
+    let want = if f[0] == "ok" { let k: usize = f[2].parse().unwrap(); format!("ok {} {} {}", k + PREFIX_TAIL_USED, hex(&b[..k + PREFIX_TAIL_USED]), k + PREFIX_TAIL_USED) } else { "err".to_string() };
+    o.stat(&format!("embed.version.{}.{}", fam, if r.starts_with("ok") { "ok" } else { "err" }));
+    o.direct(r == want, "varint as the version field of a TransactionPrefix: rejected iff the string is no VarInt, else consumed exactly and re-serialised to itself", line.clone(), r, want);
+    let got = deserialize_partial::<monero::blockdata::transaction::TransactionPrefix>(&b).ok().map(|(p, k)| (p.version.0, k));
+    let want_v = if f[0] == "ok" { Some((f[1].parse::<u64>().unwrap(), f[2].parse::<usize>().unwrap() + PREFIX_TAIL_USED)) } else { None };
+    o.direct(got == want_v, "varint as the version field of a TransactionPrefix: version == the positional value of the string", line, format!("{:?}", got), format!("{:?}", want_v));
+}
+/// a boundary string as the element COUNT of a vector (`Vec<u8>`, `Vec<VarInt>`, `Vec<Key>`), followed by 40 payload bytes: rejected
+/// if the string is no VarInt or asks for more than 64 elements (allocation cap or end of input, whichever comes first);
+/// for `Vec<u8>` and a count that fits the payload, exactly `count` bytes follow
+fn embed_count_case(o: &mut Out, s: &[u8], fam: &str) {
+    let payload: Vec<u8> = (0..40u8).map(|i| 0x11u8.wrapping_mul(i).wrapping_add(1) & 0x7f).collect();
+    let mut b = s.to_vec(); b.extend_from_slice(&payload);
+    let pos = positional(&b); // one stream: an unterminated `s` continues into the payload
+    let f: Vec<&str> = pos.split(' ').collect();
+    let cnt: Option<(u64, usize)> = if f[0] == "ok" { Some((f[1].parse().unwrap(), f[2].parse().unwrap())) } else { None };
+    for ty in ["vec_u8", "vec_varint", "vec_key"] {
+        let line = format!("c01_dec {} {}", ty, hex(&b));
+        let r = o.op(line.clone(), true);
+        o.stat(&format!("embed.count.{}.{}.{}", ty, fam, if r.starts_with("ok") { "ok" } else { "err" }));
+        let want = match cnt {
+            None => Some("err".to_string()),
+            Some((n, _)) if n > 64 => Some("err".to_string()),
+            Some((n, k)) if ty == "vec_u8" => Some(if k + n as usize <= b.len() { let e = k + n as usize; format!("ok {} {} {}", e, hex(&b[..e]), e) } else { "err".to_string() }),
+            _ => None,
+        };
+        if let Some(w) = want { o.direct(r == w, "varint as a vector count: rejected iff the string is no VarInt or the count cannot be served; else exactly `count` elements follow", line, r, w); }
+    }
+}
+/// (11) boundary strings named by the sixth batch of seeded changes, deterministically in every run, bare (`varint_dec`,
+/// `varint_decx`, `varint_des`) and embedded as the first field of a transaction prefix and as a vector count
+fn boundary_families(o: &mut Out, rx: &mut Rng) {
+    let cont = |rx: &mut Rng, n: usize| -> Vec<u8> { rx.bytes(n).into_iter().map(|x| x | 0x80).collect() };
+    // (11a) nine bytes: eight continuation bytes (every mix of 0x80 / 0xff, five further fills, two random), then 0x00 — a zero
+    //       byte at position nine is as illegal as at positions 2..8 and 10.. ; beside each, the accepted neighbours (last byte
+    //       0x01, 0x7f) and the zero byte one position later
+    let mut eight: Vec<Vec<u8>> = (0..256u32).map(|m| (0..8).map(|i| if m >> i & 1 == 1 { 0xffu8 } else { 0x80 }).collect()).collect();
+    for c in [0x81u8, 0xfe, 0xaa, 0xd5, 0xc0] { eight.push(vec![c; 8]); }
+    for _ in 0..2 { eight.push(cont(rx, 8)); }
+    let mut embedded: Vec<(Vec<u8>, &'static str)> = vec![];
+    for (i, p) in eight.iter().enumerate() {
+        let mut b = p.clone(); b.push(0x00);
+        dec_case(o, &b, "nine.zero"); decx_case(o, &b, "nine.zero");
+        o.direct(dec_line(&b) == "err", "varint: eight continuation bytes followed by 0x00 are rejected", format!("varint_dec {}", hex(&b)), dec_line(&b), "err".into());
+        embedded.push((b.clone(), "nine.zero"));
+        if i % 16 == 0 || i >= 256 {
+            b.push(0x01); decx_case(o, &b, "nine.zero+");
+            for l in [0x01u8, 0x7f] { let mut a = p.clone(); a.push(l); dec_case(o, &a, "nine.ok"); decx_case(o, &a, "nine.ok"); }
+            let mut z = p.clone(); z.push(0x80); z.push(0x00); decx_case(o, &z, "ten.zero");
+            for k in 1..8 { let mut y = p[..k].to_vec(); y.push(0x00); y.push(0x01); decx_case(o, &y, "short.zero"); }
+        }
+    }
+    // (11b) ten bytes: nine continuation bytes, then EVERY tenth byte 0..=255 (only 0x01 is a u64; 0x00 is the zero rule, 0x02..0x7f
+    //       overflow, odd and even alike; 0x80.. needs an eleventh byte). `ff×9` and `80×9` are family (7) `len10x`; here two more
+    //       fills of the low nine bytes, one alternating and one random per run — and all four embedded below
+    let nines: Vec<Vec<u8>> = vec![vec![0xff; 9], vec![0x80; 9], (0..9).map(|i| if i % 2 == 0 { 0x80u8 } else { 0xff }).collect(), cont(rx, 9)];
+    for (j, p) in nines.iter().enumerate() { for l in 0..=255u8 {
+        let mut b = p.clone(); b.push(l);
+        if j >= 2 { dec_case(o, &b, "ten.every"); decx_case(o, &b, "ten.every"); }
+        if l >= 2 && l < 0x80 { o.direct(dec_line(&b) == "err", "varint: nine continuation bytes followed by a byte 0x02..0x7f denote a value >= 2^64 and are rejected", format!("varint_dec {}", hex(&b)), dec_line(&b), "err".into()); }
+        if j < 2 || l < 0x10 || l % 8 == 7 { embedded.push((b, "ten.every")); }
+    } }
+    // (11c) five bytes: four continuation bytes, then 0x0e..=0x21 — bit 4 of the fifth group is bit 32 of the value (0x10..0x1f:
+    //       2^32 .. 2^33-1, what does not fit a u32); value against the independent arithmetic, and back through the encoder
+    let fours: Vec<Vec<u8>> = vec![vec![0x80; 4], vec![0xff; 4], vec![0x81, 0x80, 0x80, 0x80], vec![0x80, 0x96, 0xb3, 0x82], vec![0xaa, 0xd5, 0xaa, 0xd5], cont(rx, 4)];
+    for p in &fours { for l in 0x0e..=0x21u8 {
+        let mut b = p.clone(); b.push(l);
+        let n: u64 = b.iter().enumerate().map(|(i, x)| ((x & 0x7f) as u64) << (7 * i)).sum();
+        let want = format!("ok {} 5", n);
+        dec_case(o, &b, "five.bit32"); decx_case(o, &b, "five.bit32");
+        o.direct(dec_line(&b) == want, "varint: a five-byte string has the value sum g_i * 128^i (bits 28..34 in the fifth byte)", format!("varint_dec {}", hex(&b)), dec_line(&b), want);
+        enc_case(o, n);
+        o.direct(serialize(&VarInt(n)) == b, "varint: encode of a value in 2^32 .. 2^33 gives the five-byte string it was read from", format!("varint_enc {}", n), hex(&serialize(&VarInt(n))), hex(&b));
+        let mut t = b.clone(); t.push(0x01); decx_case(o, &t, "five.bit32+suffix");
+        embedded.push((b, "five.bit32"));
+    } }
+    // controls: small legal counts / versions, so that the embedded families contain accepted cases as well
+    for n in [0u64, 1, 2, 3, 40, 41, 64, 65, 127, 128, 300] { embedded.push((serialize(&VarInt(n)), "control")); }
+    for b in [vec![0x80u8, 0x00], vec![0x81, 0x00], vec![0x80], vec![]] { embedded.push((b, "control.bad")); }
+    // (11d) the same strings as the first field of a transaction prefix (version) and as a vector count
+    for (s, fam) in &embedded { embed_prefix_case(o, s, fam); embed_count_case(o, s, fam); }
 }
